@@ -245,7 +245,9 @@ func (s *solver) check(extra *term) string {
 	s.send("(assert " + txt + ")")
 	s.send("(check-sat)")
 	r := s.readVerdict()
-	s.send("(pop 1)")
+	if r != "restart" {
+		s.send("(pop 1)")
+	}
 	s.account(r, t0)
 	return r
 }
@@ -270,13 +272,18 @@ func (s *solver) checkCore(extra *term) (string, []*term) {
 }
 
 func (s *solver) readVerdict() string {
+	sawError := false
 	for {
 		line := s.readLine()
 		switch {
 		case line == "sat" || line == "unsat" || line == "unknown":
+			if sawError {
+				// an (error line before the verdict: the answer is inconclusive
+				return "unknown"
+			}
 			return line
-		case line == "timeout":
-			// solver wedged: restart; caller treats as unknown
+		case line == "timeout" || strings.HasPrefix(line, "(error \"solver pipe:"):
+			// solver wedged or gone (killed, crashed): restart; caller treats as unknown
 			s.close()
 			s.start()
 			s.stats.Restarts++
@@ -287,9 +294,7 @@ func (s *solver) readVerdict() string {
 				fmt.Fprintln(os.Stderr, "solver:", line)
 			}
 			// keep reading until the verdict line arrives, but remember the error
-			v := s.readVerdict()
-			_ = v
-			return "unknown"
+			sawError = true
 		case line == "":
 			continue
 		default:
